@@ -60,9 +60,17 @@ func (c04) Generate(seed uint64, tier string, index int) any {
 		}
 	}
 	sc.Dst = g.PriorDest(ls, true, g.R.Intn(3))
+	// something that cannot simply be replaced: a directory (with content) where
+	// the source has a symlink or a file: the transfer returns an error, and
+	// must not leave temporary names behind
+	for _, l := range ls {
+		if (l.Entry.Type == "l" || l.Entry.Type == "f") && l.Name != "." && sc.Dst.Find(l.Name) == nil && g.R.Intn(8) == 0 {
+			sc.Dst.Entries = append(sc.Dst.Entries, fstree.Entry{Path: fstree.Name(l.Name + "/occupied"), Type: "f", Perm: 0o644, Mtime: 1_400_000_000, Content: g.Content(10)})
+		}
+	}
 	// replaced symlinks: half of the source symlinks meet a symlink with another target
 	for _, l := range ls {
-		if l.Entry.Type == "l" && l.Name != "." && sc.Dst.Find(l.Name) == nil && g.R.Bool() {
+		if l.Entry.Type == "l" && l.Name != "." && sc.Dst.Find(l.Name) == nil && sc.Dst.Find(l.Name+"/occupied") == nil && g.R.Bool() {
 			blocked := false
 			for _, d := range sc.Dst.Entries {
 				if d.Type != "d" && strings.HasPrefix(l.Name, string(d.Path)+"/") {
@@ -272,6 +280,27 @@ func (c04) Run(t *testing.T, scenario any, job *Job, res *Result) {
 		setTape(&sc.Sync.Tr, base)
 		return
 	}
+	if base.Outcome == kernel.Finished && (base.ClientErr != nil || base.ServerErr != nil) && base.Panic == "" {
+		// the transfer itself returned an error (e.g. something in the way that
+		// cannot be replaced): success is not this check's business, but the
+		// second sentence of the property is: no temporary file may stay behind
+		if err := ac.check(); err != nil {
+			res.Violate("non-atomic", "final-state-after-error:"+receiverSide(sc.Sync.Arr), "after a fault-free run that returned an error: "+err.Error())
+			return
+		}
+		if l := leftovers(droot, ac.before, ac.want); len(l) > 0 {
+			recvErr := base.ClientErr
+			if sc.Sync.Arr == "A2" || sc.Sync.Arr == "A3s" {
+				recvErr = base.ServerErr
+			}
+			res.Violate("temp-leftover", "temp-leftover-after-error-return:"+receiverSide(sc.Sync.Arr)+generatorFirstTag(recvErr, droot, l), fmt.Sprintf("the session returned client=%v server=%v; after the connection was closed these non-listed entries remain in the destination: %q", base.ClientErr, base.ServerErr, l))
+			setTape(&sc.Sync.Tr, base)
+			return
+		}
+		res.Probe("error_returns_checked_for_leftovers", 1)
+		res.NonTrivial = true
+		return
+	}
 	if base.Outcome != kernel.Finished || base.ClientErr != nil {
 		// outside the domain of this check (C01/C18 judge success); nothing to enumerate
 		res.Invalid = fmt.Sprintf("fault-free session did not succeed: %v %v", base.Outcome, base.ClientErr)
@@ -373,11 +402,7 @@ func (c04) Run(t *testing.T, scenario any, job *Job, res *Result) {
 				recvErr = s.ServerErr
 			}
 			if l := leftovers(droot, ac.before, ac.want); len(l) > 0 {
-				tag := ""
-				if recvErr != nil && strings.Contains(recvErr.Error(), "write ") {
-					// the generator's write failed first; the receiving goroutine is still inside a file
-					tag = ":generator-write-failed-first"
-				}
+				tag := generatorFirstTag(recvErr, droot, l)
 				fail("temp-leftover", "temp-leftover:"+receiverSide(sc.Sync.Arr)+tag, fmt.Sprintf("receiver returned %v; after the connection was closed these non-listed entries remain in the destination: %q", recvErr, l))
 				return
 			}
@@ -393,4 +418,29 @@ func receiverSide(arr string) string {
 		return "server-receiver"
 	}
 	return "client-receiver"
+}
+
+// generatorFirstTag: the receiving side has two goroutines; when the GENERATOR
+// goroutine fails first (a write error, or something in the way that cannot be
+// removed or created) while the receiving goroutine is inside a file, the
+// recorded finding applies (Do returns at once, the root is closed, the
+// pending file's cleanup fails).
+func generatorFirstTag(recvErr error, root string, left []string) string {
+	if recvErr == nil {
+		return ""
+	}
+	// the recorded finding leaves the pending REGULAR temporary file of the
+	// receive in flight; any other kind of leftover is something else
+	for _, p := range left {
+		if n, err := fstree.LstatNode(filepath.Join(root, p), false); err != nil || n.Type != "f" {
+			return ""
+		}
+	}
+	e := recvErr.Error()
+	for _, m := range []string{"write ", "unlinking to make room", "mkdir", "symlink", "Open(parent", "renameat", "mknod", "mkfifo"} {
+		if strings.Contains(e, m) {
+			return ":generator-failed-first"
+		}
+	}
+	return ""
 }
